@@ -466,6 +466,11 @@ func (s *Session) applyContract(st *State, con *Contract, callee *ssa.Function, 
 	s.addParamAliases(env, callee)
 	env.st = st
 	for _, c := range con.Ensures {
+		if strings.Contains(c.Src, "calls(") || strings.Contains(c.Src, "returned(") {
+			// a clause about the callee's own activation (how often IT called something): it says nothing
+			// the caller could use, and its counters must not be read as the caller's
+			continue
+		}
 		st.assumeG(s.evalBool(st, env, c.E, c.Src), labelGroup(c.Label))
 	}
 	// counters
